@@ -1,7 +1,7 @@
 (* C11 — formatting preserves the document.  The formatter is the parser's skeleton with text rewriting and indentation;
    statements about where text is rewritten and where it is not; proofs in Proofs/FormatterProofs.v. *)
 From AHP Require Import Model.Base Model.Str Model.Attr Model.Dom Model.Serial Model.Parser Model.Formatter Gen.Tables
-     Proofs.DomProofs Proofs.ParserProofs Proofs.FormatterProofs.
+     Proofs.DomProofs Proofs.ParserProofs Proofs.FormatterProofs Proofs.FormatterSimProofs.
 
 (* everything inside pre / code, at any nesting depth, is appended byte for byte *)
 Theorem C11_preformatted_verbatim : forall c s d f r, finpre s <> 0 -> d <> "" -> pstk (fps s) = f :: r ->
@@ -32,3 +32,21 @@ Example C11_ex :
                                    +++ String (ascii_of_nat 10) "" +++ "</div>")
   | PRaise _ => False end.
 Proof. vm_compute. reflexivity. Qed.
+
+(* the headline: from the same handler calls the formatter builds the tree the parser builds - same elements, nesting, attributes,
+   self-closing flags (trel) - with text that differs in white space only; the two fail together (same exception) *)
+Theorem C11_same_tree_up_to_white_space : forall c ts1 ts2,
+  match feed PPlain ts1 ts2, ffeed c ts1 ts2 with
+  | POk p, POk s => orel (tree_of p) (tree_of (fps s))
+  | PRaise e, PRaise e' => e = e'
+  | _, _ => False
+  end.
+Proof. exact formatter_tree. Qed.
+(* the text rewriting outside pre / code / script / style touches white space only, so text with more than white space is never dropped *)
+Theorem C11_rewriting_is_white_space_only : forall d, erase_ws (fmt_data d) = erase_ws d.
+Proof. exact fmt_data_erase. Qed.
+Theorem C11_text_never_dropped : forall d, fmt_data d = "" -> erase_ws d = "".
+Proof. exact fmt_data_keeps. Qed.
+Example C11_ex_fmt_data : fmt_data (String (ascii_of_nat 10) "  a" +++ String (ascii_of_nat 9) "b  " +++ String (ascii_of_nat 13) "") = " a b ".
+Proof. vm_compute. reflexivity. Qed.
+
